@@ -1240,6 +1240,13 @@ class TLSConnection(TLSRecordLayer):
                         "record_size_limit extension"):
                     yield result
             self._peer_record_size_limit = size_limit_ext.record_size_limit
+
+        ecpf_ext = serverHello.getExtension(ExtensionType.ec_point_formats)
+        if ecpf_ext and not ecpf_ext.formats:
+            for result in self._sendError(
+                    AlertDescription.decode_error,
+                    "Empty ec_point_formats extension"):
+                yield result
         yield serverHello
 
     @staticmethod
